@@ -337,9 +337,10 @@ def updPath (old : Val) : List Nat → Val → Option Val
 termination_by p _ => p.length
 decreasing_by all_goals simp_wf
 
-/-- control signal of a statement -/
+/-- control signal of a statement; `stuck` = the run cannot continue (out of fuel, index out of range,
+    a value of the wrong kind, arity mismatch): the trace returned with it is the trace so far -/
 inductive Ctl where
-  | norm | brk | cont | ret (vs : List Val) | panic
+  | norm | brk | cont | ret (vs : List Val) | panic | stuck
 deriving Repr, Inhabited
 
 abbrev Oracle := Nat → List Val → List Val
@@ -350,97 +351,102 @@ def asBool : Val → Option Bool
   | .int n => some (n != 0)
   | .arr _ => none
 
-/-- fuel-indexed big-step interpreter: final environment, control signal and leakage trace -/
-def exec (P : Prog) (G : Nat → Val) (X : Oracle) : Nat → Env → Stmt → Option Res
-  | 0, _, _ => none
+/-- fuel-indexed big-step interpreter, total: final environment, control signal and leakage trace.
+    A run that cannot continue ends with `Ctl.stuck` and the events of the statements completed so
+    far (so that two runs can be compared even when one of them does not complete). -/
+def exec (P : Prog) (G : Nat → Val) (X : Oracle) : Nat → Env → Stmt → Res
+  | 0, env, _ => (env, .stuck, [])
   | fuel + 1, env, s =>
     match s with
-    | .skip => some (env, .norm, [])
-    | .brk => some (env, .brk, [])
-    | .cont => some (env, .cont, [])
-    | .panic => some (env, .panic, [])
+    | .skip => (env, .norm, [])
+    | .brk => (env, .brk, [])
+    | .cont => (env, .cont, [])
+    | .panic => (env, .panic, [])
     | .assign x p e =>
       match evalE G env e, evalPath G env p with
       | some (v, t1), some (ks, t2) =>
         match updPath (env x) ks v with
-        | some n => some (env.set x n, .norm, t1 ++ t2)
-        | none => none
-      | _, _ => none
+        | some n => (env.set x n, .norm, t1 ++ t2)
+        | none => (env, .stuck, [])
+      | _, _ => (env, .stuck, [])
     | .declass x site e =>
       match evalE G env e with
-      | some (.int n, t1) => some (env.set x (.int n), .norm, t1 ++ [.declass site n])
-      | _ => none
+      | some (.int n, t1) => (env.set x (.int n), .norm, t1 ++ [.declass site n])
+      | _ => (env, .stuck, [])
     | .seq a b =>
       match exec P G X fuel env a with
-      | some (env1, .norm, t1) =>
+      | (env1, .norm, t1) =>
         match exec P G X fuel env1 b with
-        | some (env2, c2, t2) => some (env2, c2, t1 ++ t2)
-        | none => none
-      | some r => some r
-      | none => none
+        | (env2, c2, t2) => (env2, c2, t1 ++ t2)
+      | r => r
     | .ite c a b =>
       match evalE G env c with
       | some (v, t0) =>
         match asBool v with
         | some d =>
           match exec P G X fuel env (if d then a else b) with
-          | some (env1, c1, t1) => some (env1, c1, t0 ++ .branch d :: t1)
-          | none => none
-        | none => none
-      | none => none
+          | (env1, c1, t1) => (env1, c1, t0 ++ .branch d :: t1)
+        | none => (env, .stuck, [])
+      | none => (env, .stuck, [])
     | .loop c body post =>
       match evalE G env c with
       | some (v, t0) =>
         match asBool v with
-        | some false => some (env, .norm, t0 ++ [.loopc false])
+        | some false => (env, .norm, t0 ++ [.loopc false])
         | some true =>
           match exec P G X fuel env body with
-          | some (env1, .brk, t1) => some (env1, .norm, t0 ++ .loopc true :: t1)
-          | some (env1, .ret vs, t1) => some (env1, .ret vs, t0 ++ .loopc true :: t1)
-          | some (env1, .panic, t1) => some (env1, .panic, t0 ++ .loopc true :: t1)
-          | some (env1, _, t1) =>   -- norm, cont
+          | (env1, .brk, t1) => (env1, .norm, t0 ++ .loopc true :: t1)
+          | (env1, .ret vs, t1) => (env1, .ret vs, t0 ++ .loopc true :: t1)
+          | (env1, .panic, t1) => (env1, .panic, t0 ++ .loopc true :: t1)
+          | (env1, .stuck, t1) => (env1, .stuck, t0 ++ .loopc true :: t1)
+          | (env1, _, t1) =>   -- norm, cont
             match exec P G X fuel env1 post with
-            | some (env2, .norm, t2) =>
+            | (env2, .norm, t2) =>
               match exec P G X fuel env2 (.loop c body post) with
-              | some (env3, c3, t3) => some (env3, c3, t0 ++ .loopc true :: (t1 ++ (t2 ++ t3)))
-              | none => none
-            | _ => none
-          | none => none
-        | none => none
-      | none => none
+              | (env3, c3, t3) => (env3, c3, t0 ++ .loopc true :: (t1 ++ (t2 ++ t3)))
+            | (env2, _, t2) => (env2, .stuck, t0 ++ .loopc true :: (t1 ++ t2))
+        | none => (env, .stuck, [])
+      | none => (env, .stuck, [])
     | .ret es =>
       match evalEs G env es with
-      | some (vs, t) => some (env, .ret vs, t)
-      | none => none
+      | some (vs, t) => (env, .ret vs, t)
+      | none => (env, .stuck, [])
     | .call lhs g args =>
       match evalEs G env args, P[g]? with
       | some (vs, t0), some fn =>
-        if fn.stub || vs.length != fn.nparams then none else
+        if fn.stub || vs.length != fn.nparams then (env, .stuck, []) else
         match exec P G X fuel (Env.ofList vs) fn.body with
-        | some (_, .ret rs, t1) =>
+        | (_, .ret rs, t1) =>
           match env.setMany lhs rs with
-          | some env1 => some (env1, .norm, t0 ++ .call g :: t1)
-          | none => none
-        | some (_, .panic, t1) => some (env, .panic, t0 ++ .call g :: t1)
-        | _ => none
-      | _, _ => none
+          | some env1 => (env1, .norm, t0 ++ .call g :: t1)
+          | none => (env, .stuck, t0 ++ .call g :: t1)
+        | (_, .panic, t1) => (env, .panic, t0 ++ .call g :: t1)
+        | (_, _, t1) => (env, .stuck, t0 ++ .call g :: t1)
+      | _, _ => (env, .stuck, [])
     | .ext lhs name leaky args =>
       match evalEs G env args with
       | some (vs, t0) =>
         match env.setMany lhs (X name vs) with
-        | some env1 => some (env1, .norm, t0 ++ [if leaky then .ext name vs else .obs name])
-        | none => none
-      | none => none
+        | some env1 => (env1, .norm, t0 ++ [if leaky then .ext name vs else .obs name])
+        | none => (env, .stuck, [])
+      | none => (env, .stuck, [])
 
-/-- run function `g` of `P` on arguments: control signal (`ret` results or `panic`) and trace -/
-def run (P : Prog) (G : Nat → Val) (X : Oracle) (fuel : Nat) (g : Nat) (args : List Val) : Option (Ctl × Trace) :=
+/-- run function `g` of `P` on arguments, total: control signal and trace (`stuck` with the trace so far
+    when the run does not complete within the fuel) -/
+def runT (P : Prog) (G : Nat → Val) (X : Oracle) (fuel : Nat) (g : Nat) (args : List Val) : Ctl × Trace :=
   match P[g]? with
   | some fn =>
-    if fn.stub || args.length != fn.nparams then none else
+    if fn.stub || args.length != fn.nparams then (.stuck, []) else
     match exec P G X fuel (Env.ofList args) fn.body with
-    | some (_, c, t) => some (c, .call g :: t)
-    | none => none
-  | none => none
+    | (_, c, t) => (c, .call g :: t)
+  | none => (.stuck, [])
+
+/-- a completed run of `g`: its results (`ret`) or `panic`, and the trace; `none` when stuck -/
+def run (P : Prog) (G : Nat → Val) (X : Oracle) (fuel : Nat) (g : Nat) (args : List Val) : Option (Ctl × Trace) :=
+  match runT P G X fuel g args with
+  | (.ret vs, t) => some (.ret vs, t)
+  | (.panic, t) => some (.panic, t)
+  | _ => none
 
 /-! ## Security labels and the checker -/
 
@@ -745,6 +751,77 @@ def straight (P : Prog) (g : Nat) : Bool :=
   (reach P g).all (fun f => match P[f]? with
     | some fn => straightS fn.body
     | none => false)
+
+
+/-! ## A concrete external world
+
+  The external calls of the translated program are the `math/big` operations of SignHashed and of the
+  coordinate conversions, `io.ReadFull` and `fmt.Errorf`.  `stdOracle` is an executable model of them on
+  integers and byte lists: the driver runs the program with it, and `OracleRel` is proved for it
+  (SMGo/Proofs/CTIROracle.lean), so the soundness theorem can be instantiated without side conditions.
+  The reader is a tape `pos ↦ i ↦ byte`: the `pos`-th read returns the bytes `tape pos 0 … tape pos (n-1)`
+  (the position is an explicit public variable of the calling function, passed to and returned by the
+  call), so successive reads deliver successive candidates. -/
+
+inductive ExtKind where
+  | setBytes     -- z.SetBytes(b): [b] ↦ [value]
+  | byteLen      -- len(z.Bytes()): [z] ↦ [number of bytes]      (first half of z.Bytes())
+  | fillBytes    -- z.FillBytes(buf): [z, buf] ↦ [big-endian encoding on len(buf) bytes]
+  | add | sub | mul | mod
+  | sign
+  | modInverse   -- [a, m] ↦ [a^(m-2) mod m]  (m is the prime p in every translated call)
+  | readFull     -- [reader, n, pos] ↦ [n bytes of the tape at pos, n, 0 (nil error), pos+1]
+  | errorf       -- [operands…] ↦ [1] (a non-nil error)
+  | other
+deriving Repr, DecidableEq, Inhabited
+
+def natOfBytes (l : List Val) : Nat :=
+  l.foldl (fun n v => match v with | .int b => n * 256 + b.toNat | .arr _ => n) 0
+
+def bytesBE (v : Nat) (len : Nat) : List Val :=
+  (List.range len).map (fun i => Val.int (Int.ofNat ((v / 256 ^ (len - 1 - i)) % 256)))
+
+def natByteLen (v : Nat) : Nat := if v = 0 then 0 else Nat.log2 v / 8 + 1
+
+def powModNat (b e m : Nat) : Nat :=
+  let rec go : Nat → Nat → Nat → Nat → Nat
+    | 0, _, _, r => r
+    | fuel + 1, b, e, r =>
+      if e = 0 then r else go fuel (b * b % m) (e / 2) (if e % 2 = 1 then r * b % m else r)
+  go (Nat.log2 e + 1) (b % m) e (1 % m)
+
+def argInt (args : List Val) (i : Nat) : Int :=
+  match args[i]? with
+  | some (.int n) => n
+  | _ => 0
+
+def argLen (args : List Val) (i : Nat) : Nat :=
+  match args[i]? with
+  | some (.arr l) => l.length
+  | _ => 0
+
+def argBytes (args : List Val) (i : Nat) : List Val :=
+  match args[i]? with
+  | some (.arr l) => l
+  | _ => []
+
+def stdOracle (kinds : List ExtKind) (tape : Nat → Nat → Nat) : Oracle := fun name args =>
+  match kinds.getD name .other with
+  | .setBytes => [.int (Int.ofNat (natOfBytes (argBytes args 0)))]
+  | .byteLen => [.int (Int.ofNat (natByteLen (argInt args 0).toNat))]
+  | .fillBytes => [.arr (bytesBE (argInt args 0).toNat (argLen args 1))]
+  | .add => [.int (argInt args 0 + argInt args 1)]
+  | .sub => [.int (argInt args 0 - argInt args 1)]
+  | .mul => [.int (argInt args 0 * argInt args 1)]
+  | .mod => [.int (argInt args 0 % argInt args 1)]
+  | .sign => [.int (if argInt args 0 < 0 then -1 else if argInt args 0 = 0 then 0 else 1)]
+  | .modInverse =>
+    [.int (Int.ofNat (powModNat ((argInt args 0) % (argInt args 1)).toNat ((argInt args 1).toNat - 2) (argInt args 1).toNat))]
+  | .readFull =>
+    [.arr ((List.range (argInt args 1).toNat).map (fun i => Val.int (Int.ofNat (tape (argInt args 2).toNat i % 256)))),
+     .int (argInt args 1), .int 0, .int (argInt args 2 + 1)]
+  | .errorf => [.int 1]
+  | .other => []
 
 /-! ### Trace digest (driver, negative witnesses) -/
 
